@@ -76,7 +76,14 @@ def _run_task_inner(task):
         out = r.__dict__.copy()
         out.pop("proved_names", None)
         # confirm failures natively and prepare replay payloads
+        # native replay of failed obligations: at most a handful per unit (a broken function typically fails hundreds
+        # of entry-wise obligations of the same clause; replaying each separately only costs time)
+        replayed = 0
         for f in out["failed"]:
+            if replayed >= 4:
+                f["native"] = {"violated": False, "note": "not replayed individually: more than 4 failed obligations in this unit (see the first ones)"}
+                continue
+            replayed += 1
             try:
                 f["native"] = harness.confirm_native(contract, inst, f, seed)
             except Exception as e:  # pragma: no cover
